@@ -4,7 +4,8 @@ from checks import c02_snapshot
 
 PROPERTY = 'C03'
 LEVEL = 'exploration'
-TECH = 'model-based PBT: generated overlapping writers/readCurrent vs commit-outcome model; derived-from invariant over the stored history'
+TECH = ('model-based PBT: generated overlapping writers/readCurrent vs commit-outcome model; derived-from invariant over the stored '
+        'history; generated committer threads x generated schedules under a deterministic scheduler')
 RULE = ('cases = generated write-heavy programs for 2-3 connections over shared plain and resolvable (Counter) objects with '
         'readCurrent declarations and retries, interleaved by the generator, on file/mapping/demo storages; oracle: (1) a '
         'commit succeeds iff no object it wrote or declared current has a newer committed revision than its snapshot, or the '
@@ -12,7 +13,9 @@ RULE = ('cases = generated write-heavy programs for 2-3 connections over shared 
         '(2) from the storage iterator: every revision of a plain object embeds the serial it was computed from, which must '
         'be the tid of the immediately preceding revision; (3) stored values equal the model\'s serial history; '
         'evaluations = steps; non-trivial = program with >= 1 commit whose write/readCurrent set overlaps a transaction '
-        'committed during its lifetime; distinct by program hash')
+        'committed during its lifetime; half of the cases are THREAD cases (write-heavy committer threads under the '
+        'deterministic scheduler of vlib/sched.py with generated schedules, oracles (2) and: every returned commit is stored, '
+        'counters equal the sum of successful increments, plus the snapshot oracles of C02); distinct by program hash')
 ASSUMPTIONS = c02_snapshot.ASSUMPTIONS
 BUDGET = {'quick': {'examples': 8000, 'workers': 8},
           'thorough': {'examples': 30000, 'workers': 16}}
